@@ -641,6 +641,265 @@ theorem rotate_sample_mem (v : String) (d : Dom K) (m c : PFun K) (ρ inner pts 
       by rw [List.cons_append, List.nil_append, hm', hmm], by rw [List.cons_append, List.nil_append, hc, hcc], rfl, rfl, hm⟩
 
 
+theorem env_get_append (pa pb : Env K) (v : String) (x : List K) (h : pa.get v = some x) : (pa ++ pb).get v = some x := by
+  unfold Env.get at *
+  induction pa with
+  | nil => simp [List.lookup] at h
+  | cons hd tl ih =>
+    obtain ⟨k, val⟩ := hd
+    simp only [List.cons_append, List.lookup] at h ⊢
+    split at h
+    · exact h
+    · exact ih h
+
+
+/-! ## 4b. products in general: `mem` of a node only reads its own coordinates and parameter values -/
+
+/-- the two rows `(pts, ρ)` and `(pts', ρ')` look the same to the expression `D`: the coordinates of `D`'s
+    variables agree and every parameter function of `D` evaluates to the same values (for a translated /
+    rotated sub-expression: at every inner point, since the inner domain is evaluated at the moved point
+    and the parameter row only) -/
+def EnvAgree : Dom K → Env K → Env K → Env K → Env K → Prop
+  | .interval v lb ub, p, ρ, p', ρ' => p.get v = p'.get v ∧ lb.f (p ++ ρ) = lb.f (p' ++ ρ') ∧ ub.f (p ++ ρ) = ub.f (p' ++ ρ')
+  | .par v o c1 c2, p, ρ, p', ρ' | .tri v o c1 c2, p, ρ, p', ρ' =>
+    p.get v = p'.get v ∧ o.f (p ++ ρ) = o.f (p' ++ ρ') ∧ c1.f (p ++ ρ) = c1.f (p' ++ ρ') ∧ c2.f (p ++ ρ) = c2.f (p' ++ ρ')
+  | .circle v c r, p, ρ, p', ρ' | .sphere v c r, p, ρ, p', ρ' =>
+    p.get v = p'.get v ∧ c.f (p ++ ρ) = c.f (p' ++ ρ') ∧ r.f (p ++ ρ) = r.f (p' ++ ρ')
+  | .union a b, p, ρ, p', ρ' | .cut a b, p, ρ, p', ρ' | .inter a b, p, ρ, p', ρ' | .prod a b, p, ρ, p', ρ' =>
+    EnvAgree a p ρ p' ρ' ∧ EnvAgree b p ρ p' ρ'
+  | .translate v d t, p, ρ, p', ρ' =>
+    p.get v = p'.get v ∧ t.f (p ++ ρ) = t.f (p' ++ ρ') ∧ ∀ q, EnvAgree d [(v, q)] ρ [(v, q)] ρ'
+  | .rotate v d m c, p, ρ, p', ρ' =>
+    p.get v = p'.get v ∧ m.f (p ++ ρ) = m.f (p' ++ ρ') ∧ c.f (p ++ ρ) = c.f (p' ++ ρ') ∧ ∀ q, EnvAgree d [(v, q)] ρ [(v, q)] ρ'
+  | .bdry _, _, _, _, _ | .bdryL _, _, _, _, _ | .bdryR _, _, _, _, _ => True
+
+/-- membership only depends on what the expression reads -/
+theorem mem_congr (D : Dom K) : ∀ (p ρ p' ρ' : Env K), EnvAgree D p ρ p' ρ' → (mem D p ρ ↔ mem D p' ρ') := by
+  induction D with
+  | interval v lb ub => intro p ρ p' ρ' h; obtain ⟨h1, h2, h3⟩ := h; simp only [mem, h1, h2, h3]
+  | par v o c1 c2 => intro p ρ p' ρ' h; obtain ⟨h1, h2, h3, h4⟩ := h; simp only [mem, h1, h2, h3, h4]
+  | tri v o c1 c2 => intro p ρ p' ρ' h; obtain ⟨h1, h2, h3, h4⟩ := h; simp only [mem, h1, h2, h3, h4]
+  | circle v c r => intro p ρ p' ρ' h; obtain ⟨h1, h2, h3⟩ := h; simp only [mem, h1, h2, h3]
+  | sphere v c r => intro p ρ p' ρ' h; obtain ⟨h1, h2, h3⟩ := h; simp only [mem, h1, h2, h3]
+  | union a b iha ihb => intro p ρ p' ρ' h; simp only [mem, iha _ _ _ _ h.1, ihb _ _ _ _ h.2]
+  | cut a b iha ihb => intro p ρ p' ρ' h; simp only [mem, iha _ _ _ _ h.1, ihb _ _ _ _ h.2]
+  | inter a b iha ihb => intro p ρ p' ρ' h; simp only [mem, iha _ _ _ _ h.1, ihb _ _ _ _ h.2]
+  | prod a b iha ihb => intro p ρ p' ρ' h; simp only [mem, iha _ _ _ _ h.1, ihb _ _ _ _ h.2]
+  | translate v d t ih =>
+    intro p ρ p' ρ' h
+    obtain ⟨h1, h2, h3⟩ := h
+    simp only [mem, h1, h2]
+    have e1 : ∀ q, mem d [(v, [q])] ρ ↔ mem d [(v, [q])] ρ' := fun q => ih _ _ _ _ (h3 [q])
+    have e2 : ∀ q1 q2, mem d [(v, [q1, q2])] ρ ↔ mem d [(v, [q1, q2])] ρ' := fun q1 q2 => ih _ _ _ _ (h3 [q1, q2])
+    have e3 : ∀ q1 q2 q3, mem d [(v, [q1, q2, q3])] ρ ↔ mem d [(v, [q1, q2, q3])] ρ' := fun q1 q2 q3 => ih _ _ _ _ (h3 [q1, q2, q3])
+    simp only [e1, e2, e3]
+  | rotate v d m c ih =>
+    intro p ρ p' ρ' h
+    obtain ⟨h1, h2, h3, h4⟩ := h
+    simp only [mem, h1, h2, h3]
+    have e2 : ∀ q1 q2, mem d [(v, [q1, q2])] ρ ↔ mem d [(v, [q1, q2])] ρ' := fun q1 q2 => ih _ _ _ _ (h4 [q1, q2])
+    simp only [e2]
+  | bdry d _ => intro p ρ p' ρ' _; simp [mem]
+  | bdryL d _ => intro p ρ p' ρ' _; simp [mem]
+  | bdryR d _ => intro p ρ p' ρ' _; simp [mem]
+
+/-- **Cartesian products in general** (any first factor, any second factor, dependent or not): the code samples
+    `pb` in the second factor at `ρ` and `pa` in the first factor at the row extended by `pb`; the joined row
+    `pa ++ pb` is a member of the product whenever each factor reads only its own part of the row
+    (`EnvAgree`; `envAgree_assoc_*` / `envAgree_left` discharge it syntactically). -/
+theorem prod_sample_mem_general (a b : Dom K) (ρ pa pb : Env K) (hb : mem b pb ρ) (ha : mem a pa (pb ++ ρ))
+    (ea : EnvAgree a pa (pb ++ ρ) (pa ++ pb) ρ) (eb : EnvAgree b pb ρ (pa ++ pb) ρ) :
+    mem (.prod a b) (pa ++ pb) ρ :=
+  ⟨(mem_congr a _ _ _ _ ea).1 ha, (mem_congr b _ _ _ _ eb).1 hb⟩
+
+/-- the variables of all primitive leaves -/
+def Dom.leafVars : Dom K → List String
+  | .interval v _ _ | .par v _ _ _ | .tri v _ _ _ | .circle v _ _ | .sphere v _ _ => [v]
+  | .union a b | .cut a b | .inter a b | .prod a b => a.leafVars ++ b.leafVars
+  | .translate v d _ | .rotate v d _ _ => v :: d.leafVars
+  | .bdry d | .bdryL d | .bdryR d => d.leafVars
+
+/-- all parameter functions of an expression -/
+def Dom.pfuns : Dom K → List (PFun K)
+  | .interval _ lb ub => [lb, ub]
+  | .par _ o c1 c2 | .tri _ o c1 c2 => [o, c1, c2]
+  | .circle _ c r | .sphere _ c r => [c, r]
+  | .union a b | .cut a b | .inter a b | .prod a b => a.pfuns ++ b.pfuns
+  | .translate _ d t => t :: d.pfuns
+  | .rotate _ d m c => m :: c :: d.pfuns
+  | .bdry d | .bdryL d | .bdryR d => d.pfuns
+
+/-- the parameter function does not look at the bindings `pb` (wherever they stand in the row) -/
+def PFun.ignores (f : PFun K) (pb : Env K) : Prop := ∀ e1 e2 : Env K, f.f (e1 ++ (pb ++ e2)) = f.f (e1 ++ e2)
+
+theorem envAgree_refl (D : Dom K) : ∀ p ρ, EnvAgree D p ρ p ρ := by
+  induction D with
+  | interval v lb ub => intro p ρ; exact ⟨rfl, rfl, rfl⟩
+  | par v o c1 c2 => intro p ρ; exact ⟨rfl, rfl, rfl, rfl⟩
+  | tri v o c1 c2 => intro p ρ; exact ⟨rfl, rfl, rfl, rfl⟩
+  | circle v c r => intro p ρ; exact ⟨rfl, rfl, rfl⟩
+  | sphere v c r => intro p ρ; exact ⟨rfl, rfl, rfl⟩
+  | union a b iha ihb => intro p ρ; exact ⟨iha p ρ, ihb p ρ⟩
+  | cut a b iha ihb => intro p ρ; exact ⟨iha p ρ, ihb p ρ⟩
+  | inter a b iha ihb => intro p ρ; exact ⟨iha p ρ, ihb p ρ⟩
+  | prod a b iha ihb => intro p ρ; exact ⟨iha p ρ, ihb p ρ⟩
+  | translate v d t ih => intro p ρ; exact ⟨rfl, rfl, fun q => ih _ ρ⟩
+  | rotate v d m c ih => intro p ρ; exact ⟨rfl, rfl, rfl, fun q => ih _ ρ⟩
+  | bdry d _ => intro p ρ; trivial
+  | bdryL d _ => intro p ρ; trivial
+  | bdryR d _ => intro p ρ; trivial
+
+/-- an expression whose parameter functions ignore `pb` does not notice `pb` in the parameter row -/
+theorem envAgree_ignore (pb : Env K) (D : Dom K) : (∀ f ∈ D.pfuns, f.ignores pb) → ∀ p ρ, EnvAgree D p (pb ++ ρ) p ρ := by
+  induction D with
+  | interval v lb ub =>
+    intro h p ρ; exact ⟨rfl, h lb (by simp [Dom.pfuns]) p ρ, h ub (by simp [Dom.pfuns]) p ρ⟩
+  | par v o c1 c2 =>
+    intro h p ρ; exact ⟨rfl, h o (by simp [Dom.pfuns]) p ρ, h c1 (by simp [Dom.pfuns]) p ρ, h c2 (by simp [Dom.pfuns]) p ρ⟩
+  | tri v o c1 c2 =>
+    intro h p ρ; exact ⟨rfl, h o (by simp [Dom.pfuns]) p ρ, h c1 (by simp [Dom.pfuns]) p ρ, h c2 (by simp [Dom.pfuns]) p ρ⟩
+  | circle v c r => intro h p ρ; exact ⟨rfl, h c (by simp [Dom.pfuns]) p ρ, h r (by simp [Dom.pfuns]) p ρ⟩
+  | sphere v c r => intro h p ρ; exact ⟨rfl, h c (by simp [Dom.pfuns]) p ρ, h r (by simp [Dom.pfuns]) p ρ⟩
+  | union a b iha ihb =>
+    intro h p ρ
+    exact ⟨iha (fun f hf => h f (by simp [Dom.pfuns, hf])) p ρ, ihb (fun f hf => h f (by simp [Dom.pfuns, hf])) p ρ⟩
+  | cut a b iha ihb =>
+    intro h p ρ
+    exact ⟨iha (fun f hf => h f (by simp [Dom.pfuns, hf])) p ρ, ihb (fun f hf => h f (by simp [Dom.pfuns, hf])) p ρ⟩
+  | inter a b iha ihb =>
+    intro h p ρ
+    exact ⟨iha (fun f hf => h f (by simp [Dom.pfuns, hf])) p ρ, ihb (fun f hf => h f (by simp [Dom.pfuns, hf])) p ρ⟩
+  | prod a b iha ihb =>
+    intro h p ρ
+    exact ⟨iha (fun f hf => h f (by simp [Dom.pfuns, hf])) p ρ, ihb (fun f hf => h f (by simp [Dom.pfuns, hf])) p ρ⟩
+  | translate v d t ih =>
+    intro h p ρ
+    exact ⟨rfl, h t (by simp [Dom.pfuns]) p ρ, fun q => ih (fun f hf => h f (by simp [Dom.pfuns, hf])) _ ρ⟩
+  | rotate v d m c ih =>
+    intro h p ρ
+    exact ⟨rfl, h m (by simp [Dom.pfuns]) p ρ, h c (by simp [Dom.pfuns]) p ρ,
+      fun q => ih (fun f hf => h f (by simp [Dom.pfuns, hf])) _ ρ⟩
+  | bdry d _ => intro _ p ρ; trivial
+  | bdryL d _ => intro _ p ρ; trivial
+  | bdryR d _ => intro _ p ρ; trivial
+
+/-- inner expressions of translate / rotate nodes do not read `pb` (the code evaluates them at the moved point
+    and the parameter row only — a dependent product whose first factor is a moved shape that itself depends
+    on the second factor raises in the code) -/
+def MotionIgnores (pb : Env K) : Dom K → Prop
+  | .interval .. | .par .. | .tri .. | .circle .. | .sphere .. => True
+  | .union a b | .cut a b | .inter a b | .prod a b => MotionIgnores pb a ∧ MotionIgnores pb b
+  | .translate _ d _ | .rotate _ d _ _ => ∀ f ∈ d.pfuns, f.ignores pb
+  | .bdry _ | .bdryL _ | .bdryR _ => True
+
+/-- **first factor, any expression**: moving the second factor's coordinates `pb` from the parameter row into the
+    point row changes nothing, provided the leaves' variables are bound in `pa` -/
+theorem envAgree_assoc (a : Dom K) (ρ pa pb : Env K) (hm : MotionIgnores pb a)
+    (hv : ∀ v ∈ a.leafVars, ∃ x, pa.get v = some x) :
+    EnvAgree a pa (pb ++ ρ) (pa ++ pb) ρ := by
+  induction a with
+  | interval v lb ub =>
+    obtain ⟨x, hx⟩ := hv v (by simp [Dom.leafVars])
+    exact ⟨by rw [hx, env_get_append pa pb v x hx], by rw [List.append_assoc], by rw [List.append_assoc]⟩
+  | par v o c1 c2 =>
+    obtain ⟨x, hx⟩ := hv v (by simp [Dom.leafVars])
+    exact ⟨by rw [hx, env_get_append pa pb v x hx], by rw [List.append_assoc], by rw [List.append_assoc], by rw [List.append_assoc]⟩
+  | tri v o c1 c2 =>
+    obtain ⟨x, hx⟩ := hv v (by simp [Dom.leafVars])
+    exact ⟨by rw [hx, env_get_append pa pb v x hx], by rw [List.append_assoc], by rw [List.append_assoc], by rw [List.append_assoc]⟩
+  | circle v c r =>
+    obtain ⟨x, hx⟩ := hv v (by simp [Dom.leafVars])
+    exact ⟨by rw [hx, env_get_append pa pb v x hx], by rw [List.append_assoc], by rw [List.append_assoc]⟩
+  | sphere v c r =>
+    obtain ⟨x, hx⟩ := hv v (by simp [Dom.leafVars])
+    exact ⟨by rw [hx, env_get_append pa pb v x hx], by rw [List.append_assoc], by rw [List.append_assoc]⟩
+  | union a b iha ihb =>
+    exact ⟨iha hm.1 (fun v h => hv v (by simp [Dom.leafVars, h])), ihb hm.2 (fun v h => hv v (by simp [Dom.leafVars, h]))⟩
+  | cut a b iha ihb =>
+    exact ⟨iha hm.1 (fun v h => hv v (by simp [Dom.leafVars, h])), ihb hm.2 (fun v h => hv v (by simp [Dom.leafVars, h]))⟩
+  | inter a b iha ihb =>
+    exact ⟨iha hm.1 (fun v h => hv v (by simp [Dom.leafVars, h])), ihb hm.2 (fun v h => hv v (by simp [Dom.leafVars, h]))⟩
+  | prod a b iha ihb =>
+    exact ⟨iha hm.1 (fun v h => hv v (by simp [Dom.leafVars, h])), ihb hm.2 (fun v h => hv v (by simp [Dom.leafVars, h]))⟩
+  | translate v d t _ =>
+    obtain ⟨x, hx⟩ := hv v (by simp [Dom.leafVars])
+    exact ⟨by rw [hx, env_get_append pa pb v x hx], by rw [List.append_assoc], fun q => envAgree_ignore pb d hm _ ρ⟩
+  | rotate v d m c _ =>
+    obtain ⟨x, hx⟩ := hv v (by simp [Dom.leafVars])
+    exact ⟨by rw [hx, env_get_append pa pb v x hx], by rw [List.append_assoc], by rw [List.append_assoc],
+      fun q => envAgree_ignore pb d hm _ ρ⟩
+  | bdry d _ => trivial
+  | bdryL d _ => trivial
+  | bdryR d _ => trivial
+
+theorem env_get_append_none (pa pb : Env K) (v : String) (h : pa.get v = none) : (pa ++ pb).get v = pb.get v := by
+  unfold Env.get at *
+  induction pa with
+  | nil => rfl
+  | cons hd tl ih =>
+    obtain ⟨k, val⟩ := hd
+    simp only [List.cons_append, List.lookup] at h ⊢
+    split at h
+    · simp at h
+    · exact ih h
+
+/-- **second factor, any expression**: prepending the first factor's coordinates `pa` to the point row changes
+    nothing, provided `pa` binds none of the second factor's variables and its parameter functions ignore `pa` -/
+theorem envAgree_left (pa : Env K) (b : Dom K) : (∀ f ∈ b.pfuns, ∀ e : Env K, f.f (pa ++ e) = f.f e) →
+    (∀ v ∈ b.leafVars, pa.get v = none) → ∀ pb ρ, EnvAgree b pb ρ (pa ++ pb) ρ := by
+  induction b with
+  | interval v lb ub =>
+    intro h hv pb ρ
+    exact ⟨(env_get_append_none pa pb v (hv v (by simp [Dom.leafVars]))).symm,
+      by rw [List.append_assoc, h lb (by simp [Dom.pfuns])], by rw [List.append_assoc, h ub (by simp [Dom.pfuns])]⟩
+  | par v o c1 c2 =>
+    intro h hv pb ρ
+    exact ⟨(env_get_append_none pa pb v (hv v (by simp [Dom.leafVars]))).symm,
+      by rw [List.append_assoc, h o (by simp [Dom.pfuns])], by rw [List.append_assoc, h c1 (by simp [Dom.pfuns])],
+      by rw [List.append_assoc, h c2 (by simp [Dom.pfuns])]⟩
+  | tri v o c1 c2 =>
+    intro h hv pb ρ
+    exact ⟨(env_get_append_none pa pb v (hv v (by simp [Dom.leafVars]))).symm,
+      by rw [List.append_assoc, h o (by simp [Dom.pfuns])], by rw [List.append_assoc, h c1 (by simp [Dom.pfuns])],
+      by rw [List.append_assoc, h c2 (by simp [Dom.pfuns])]⟩
+  | circle v c r =>
+    intro h hv pb ρ
+    exact ⟨(env_get_append_none pa pb v (hv v (by simp [Dom.leafVars]))).symm,
+      by rw [List.append_assoc, h c (by simp [Dom.pfuns])], by rw [List.append_assoc, h r (by simp [Dom.pfuns])]⟩
+  | sphere v c r =>
+    intro h hv pb ρ
+    exact ⟨(env_get_append_none pa pb v (hv v (by simp [Dom.leafVars]))).symm,
+      by rw [List.append_assoc, h c (by simp [Dom.pfuns])], by rw [List.append_assoc, h r (by simp [Dom.pfuns])]⟩
+  | union a b iha ihb =>
+    intro h hv pb ρ
+    exact ⟨iha (fun f hf => h f (by simp [Dom.pfuns, hf])) (fun v hv' => hv v (by simp [Dom.leafVars, hv'])) pb ρ,
+      ihb (fun f hf => h f (by simp [Dom.pfuns, hf])) (fun v hv' => hv v (by simp [Dom.leafVars, hv'])) pb ρ⟩
+  | cut a b iha ihb =>
+    intro h hv pb ρ
+    exact ⟨iha (fun f hf => h f (by simp [Dom.pfuns, hf])) (fun v hv' => hv v (by simp [Dom.leafVars, hv'])) pb ρ,
+      ihb (fun f hf => h f (by simp [Dom.pfuns, hf])) (fun v hv' => hv v (by simp [Dom.leafVars, hv'])) pb ρ⟩
+  | inter a b iha ihb =>
+    intro h hv pb ρ
+    exact ⟨iha (fun f hf => h f (by simp [Dom.pfuns, hf])) (fun v hv' => hv v (by simp [Dom.leafVars, hv'])) pb ρ,
+      ihb (fun f hf => h f (by simp [Dom.pfuns, hf])) (fun v hv' => hv v (by simp [Dom.leafVars, hv'])) pb ρ⟩
+  | prod a b iha ihb =>
+    intro h hv pb ρ
+    exact ⟨iha (fun f hf => h f (by simp [Dom.pfuns, hf])) (fun v hv' => hv v (by simp [Dom.leafVars, hv'])) pb ρ,
+      ihb (fun f hf => h f (by simp [Dom.pfuns, hf])) (fun v hv' => hv v (by simp [Dom.leafVars, hv'])) pb ρ⟩
+  | translate v d t _ =>
+    intro h hv pb ρ
+    exact ⟨(env_get_append_none pa pb v (hv v (by simp [Dom.leafVars]))).symm,
+      by rw [List.append_assoc, h t (by simp [Dom.pfuns])], fun q => envAgree_refl d _ ρ⟩
+  | rotate v d m c _ =>
+    intro h hv pb ρ
+    exact ⟨(env_get_append_none pa pb v (hv v (by simp [Dom.leafVars]))).symm,
+      by rw [List.append_assoc, h m (by simp [Dom.pfuns])], by rw [List.append_assoc, h c (by simp [Dom.pfuns])],
+      fun q => envAgree_refl d _ ρ⟩
+  | bdry d _ => intro _ _ pb ρ; trivial
+  | bdryL d _ => intro _ _ pb ρ; trivial
+  | bdryR d _ => intro _ _ pb ρ; trivial
+
+
 /-! ## 5. whole expressions: everything the composite samplers can return is a member -/
 
 section samples
@@ -665,17 +924,21 @@ inductive Samples (τ : Tol K) : Dom K → Env K → Env K → Prop
       Samples τ d ρ [(v, q)] → translatePt q (t.f ρ) = some p → Samples τ (.translate v d t) ρ [(v, p)]
   | rotate (v : String) (d : Dom K) (m c : PFun K) (ρ : Env K) (q p : List K) :
       Samples τ d ρ [(v, q)] → rotatePt q (m.f ρ) (c.f ρ) = some p → Samples τ (.rotate v d m c) ρ [(v, p)]
+  | prod (a b : Dom K) (ρ pa pb : Env K) :
+      Samples τ b ρ pb → Samples τ a (pb ++ ρ) pa → Samples τ (.prod a b) ρ (pa ++ pb)
 
 /-- side conditions along the expression at the parameter row `ρ`: primitives as in `PrimOK`; the partner
     of a cut / intersection is a solid, non-degenerate expression (so that its membership test decides its
     set: C05); motion parameters do not read the own coordinate variable -/
-def SampleWF : Dom K → Env K → Prop
-  | .union a b, ρ => SampleWF a ρ ∧ SampleWF b ρ
-  | .cut a b, ρ => SampleWF a ρ ∧ b.solid ∧ ∀ pts, NonDeg b pts ρ
-  | .inter a b, ρ => SampleWF a ρ ∧ b.solid ∧ ∀ pts, NonDeg b pts ρ
-  | .translate v d t, ρ => SampleWF d ρ ∧ t.indep v
-  | .rotate v d m c, ρ => SampleWF d ρ ∧ m.indep v ∧ c.indep v
-  | .prod _ _, _ => False
+def SampleWF (τ : Tol K) : Dom K → Env K → Prop
+  | .union a b, ρ => SampleWF τ a ρ ∧ SampleWF τ b ρ
+  | .cut a b, ρ => SampleWF τ a ρ ∧ b.solid ∧ ∀ pts, NonDeg b pts ρ
+  | .inter a b, ρ => SampleWF τ a ρ ∧ b.solid ∧ ∀ pts, NonDeg b pts ρ
+  | .translate v d t, ρ => SampleWF τ d ρ ∧ t.indep v
+  | .rotate v d m c, ρ => SampleWF τ d ρ ∧ m.indep v ∧ c.indep v
+  | .prod a b, ρ => SampleWF τ b ρ ∧ ∀ pb, Samples τ b ρ pb →
+      (SampleWF τ a (pb ++ ρ) ∧ ∀ pa, Samples τ a (pb ++ ρ) pa →
+        EnvAgree a pa (pb ++ ρ) (pa ++ pb) ρ ∧ EnvAgree b pb ρ (pa ++ pb) ρ)
   | .bdry _, _ => False
   | .bdryL _, _ => False
   | .bdryR _, _ => False
@@ -686,7 +949,7 @@ def SampleWF : Dom K → Env K → Prop
     parameter-dependent shape), every parameter row `ρ` and every point the sampling procedures can
     return for that row: the point belongs to the set the expression denotes at `ρ`. -/
 theorem samples_mem (L : TranscLaws K) (τ : Tol K) (D : Dom K) (ρ pts : Env K) (h : Samples τ D ρ pts) :
-    SampleWF D ρ → mem D pts ρ := by
+    SampleWF τ D ρ → mem D pts ρ := by
   induction h with
   | prim D ρ tape pts htape hs =>
     intro hwf
@@ -725,6 +988,12 @@ theorem samples_mem (L : TranscLaws K) (τ : Tol K) (D : Dom K) (ρ pts : Env K)
     intro hwf
     exact rotate_sample_mem v d m c ρ [(v, q)] [(v, p)] hwf.2.1 hwf.2.2 ⟨q, rfl⟩ (ih hwf.1)
       (by simp [rotateSample, env_get_head, hq])
+  | prod a b ρ pa pb hsb hsa ihb iha =>
+    intro hwf
+    obtain ⟨wb, hall⟩ := hwf
+    obtain ⟨wa, hag⟩ := hall pb hsb
+    obtain ⟨ea, eb⟩ := hag pa hsa
+    exact prod_sample_mem_general a b ρ pa pb (ihb wb) (iha wa) ea eb
 
 end samples
 
@@ -734,17 +1003,6 @@ end samples
 theorem prod_sample_mem (a b : Dom K) (ρ pa pb : Env K) (hb : mem b pb ρ) (ha : mem a pa (pb ++ ρ))
     (ta : mem a pa (pb ++ ρ) → mem a (pa ++ pb) ρ) (tb : mem b pb ρ → mem b (pa ++ pb) ρ) :
     mem (.prod a b) (pa ++ pb) ρ := ⟨ta ha, tb hb⟩
-
-theorem env_get_append (pa pb : Env K) (v : String) (x : List K) (h : pa.get v = some x) : (pa ++ pb).get v = some x := by
-  unfold Env.get at *
-  induction pa with
-  | nil => simp [List.lookup] at h
-  | cons hd tl ih =>
-    obtain ⟨k, val⟩ := hd
-    simp only [List.cons_append, List.lookup] at h ⊢
-    split at h
-    · exact h
-    · exact ih h
 
 /-- the first factor of a dependent product: a disc whose parameters read the second factor's coordinates -/
 theorem mem_assoc_circle (v : String) (c r : PFun K) (ρ pa pb : Env K) (h : mem (.circle v c r) pa (pb ++ ρ)) :
